@@ -230,6 +230,11 @@ class Recorder:
     def note(self, key, value):
         self.notes[key] = jsonable(value)
 
+    def note_count(self, key, item: str, n: int = 1):
+        """Histogram-valued observation (merged across shards by summing)."""
+        d = self.notes.setdefault(key, {})
+        d[item] = d.get(item, 0) + n
+
     def note_max(self, key, value):
         value = float(value)
         if value == value and (key not in self.notes or value > self.notes[key]):
